@@ -302,6 +302,7 @@ func c13(c *Ctx) {
 			missingAnchor(r, nme)
 		}
 	}
+	entries = append(entries, av1Setup(c)...)
 	boundsFor(c, "C13", entries)
 	r.Infof("CTR.lenprefix: %d length-prefix/data pair(s) recognised and reached", len(c.lenPairsSeen))
 }
